@@ -769,6 +769,13 @@ class SymArr(np.ndarray):
             return out[0] if len(out) == 1 else out
         return _rewrap(res)
 
+    def __setitem__(self, key, value):
+        # float64 semantics: assigning a 0-d array into a cell stores its scalar (an object
+        # array would store the array object itself)
+        if isinstance(value, np.ndarray) and value.ndim == 0 and value.dtype == object:
+            value = value[()]
+        super().__setitem__(key, value)
+
     def astype(self, dtype, *a, **k):
         if dtype in (int, bool, np.int64, np.int32, np.bool_) and _has_sym(self):
             def conv(x):
